@@ -140,7 +140,7 @@ var (
 		"int", "str", "bool", "float", "any", "range", "list",
 		"println", "print", "debug", "assert", "fmt", "log", "time", "sleep", "now", "throw", "exit",
 		"assert_eq", "any_func", "any_list", "minute", "FooFeature", "dim", "set_temp", "light", "temperature", "testing", "triggers", "templates", "net", "host",
-		"len", "push", "pop", "to_string", "unwrap", "is_some", "keys", "at", "nosuch", "undefined", "__internal"}
+		"len", "push", "pop", "to_string", "unwrap", "is_some", "keys", "at", "nosuch", "undefined", "__internal", "allow_unused"}
 	separators = []string{" ", " ", " ", "", "", "\n", "\t", "\r\n", "/*c*/", "//c\n", "  "}
 )
 
@@ -162,7 +162,7 @@ var fragments = []string{
 	"fn main() {", "fn f(x: int) -> int {", "pub fn g() {", "event fn e() {", "}", "};", "{", "let x =", "let y: int =", "pub let v =", "type T =", "pub type U =",
 	"import x from a;", "import { f, g } from m;", "import type T from m;", "import { type T, templ U } from m;", "import trigger minute from triggers;", "import templ FooFeature from templates;",
 	"import x from a:", "import x from @", "import x from a:b:c;", "import { assert_eq } from testing;", "import _ from m;", "import {", "from", "$S = {", "$S = int;", "$S = { @setting x: int };", "$S",
-	"impl FooFeature with { light } for $S {", "impl U for $S {", "impl", "with {", "#[", "#[foo]", "#[trigger at minute(1)]", "#[trigger on", "]", "trigger f at minute(1);", "trigger f on", "trigger",
+	"impl FooFeature with { light } for $S {", "impl U for $S {", "impl", "with {", "#[", "#[foo]", "#[allow_unused]", "#[trigger at minute(1)]", "#[trigger on", "]", "trigger f at minute(1);", "trigger f on", "trigger",
 	"if x {", "} else {", "} else if y {", "match x {", "1 =>", "_ =>", "1 | 2 =>", "-1 =>", "\"a\" =>", "try {", "} catch e {", "for i in 0..10 {", "for i in", "while true {", "loop {", "break;", "continue;", "return;", "return",
 	"new {", "new { ? }", "new { a: 1 }", "a: 1,", "\"k\": 2,", "[1, 2]", "[", "fn() {", "fn(a: int) -> int {", "x as int", "as", "as [int]", "as {?}", "as fn() -> int", "spawn f()", "spawn", "x.y", "x->y", "x~>y", "x[0]", "f()", "f(1, 2)", "f(",
 	"?int", "[int]", "{ a: int }", "{ ? }", "fn(x: int) -> str", "?", "1..2", "1..=2", "..", "x = 1;", "x += 1;", "x **= 2;", "(", ")", ",", ";", ":", "->", "=>", "=",
@@ -444,7 +444,7 @@ func (g *sg) stmt(d int) string {
 func (g *sg) fn(name string, top bool) string {
 	s := ""
 	if top && g.chance("annotated", 12) {
-		s = "#[" + g.pick("annot", []string{"foo", "trigger at minute(1)", "trigger on minute(x, 2)", "trigger in nosuch()", "foo, bar", "trigger at f()"}) + "] "
+		s = "#[" + g.pick("annot", []string{"foo", "allow_unused", "allow_unused, allow_unused", "trigger at minute(1)", "trigger on minute(x, 2)", "trigger in nosuch()", "foo, bar", "trigger at f()"}) + "] "
 	}
 	switch {
 	case g.module && g.chance("pubmod", 80), !g.module && g.chance("pub", 15):
@@ -565,6 +565,18 @@ var depthGens = []depthGen{
 	{name: "infix-paren-nest", make: func(n int) string { return "let x = " + nest("1+(", "1", ")", n) + ";" }},
 	{name: "pow-right-assoc", make: func(n int) string { return "let x = " + rep("2 ** ", n) + "2;" }},
 	{name: "assign-right-assoc", make: func(n int) string { return "let a = 0; " + rep("a = ", n) + "1;" }},
+	{name: "assign-rhs-nest", make: func(n int) string { return "let a = 0; " + nest("a = (", "1", ")", n) + ";" }},
+	{name: "assign-lhs-index-nest", make: func(n int) string { return "let a = [0]; " + nest("a[", "0", "]", n) + " = 1;" }},
+	{name: "assign-lhs-member-chain", make: func(n int) string { return "let a = new { b: 1 }; a" + rep(".b", n) + " = 1;" }},
+	{name: "call-base-paren-nest", make: func(n int) string { return nest("(", "f", ")", n) + "();" }},
+	{name: "call-of-call-args", make: func(n int) string { return "f" + rep("(f)", n) + ";" }},
+	{name: "member-of-paren-nest", make: func(n int) string { return nest("(", "a", ").b", n) + ";" }},
+	{name: "while-condition-nest", make: func(n int) string { return nest("while { ", "true", " } { break; }", n) }},
+	{name: "for-iter-nest", make: func(n int) string { return nest("for i in { ", "0..1", " } { break; }", n) }},
+	{name: "range-lhs-nest", make: func(n int) string { return "let x = " + nest("(", "1", "..2)", n) + ";" }},
+	{name: "cast-in-cast-type", make: func(n int) string { return "let x = 1 as " + nest("{ a: ", "int", " }", n) + ";" }},
+	{name: "throw-nest", make: func(n int) string { return nest("throw(", "1", ")", n) + ";" }},
+	{name: "println-nest", make: func(n int) string { return nest("println(", "1", ")", n) + ";" }},
 	{name: "range-chain", make: func(n int) string { return "let x = " + rep("1..", n) + "2;" }},
 	{name: "cast-chain", make: func(n int) string { return "let x = 1" + rep(" as int", n) + ";" }},
 	{name: "member-chain", make: func(n int) string { return "let x = a" + rep(".b", n) + ";" }},
@@ -742,4 +754,67 @@ var seedPrograms = []string{
 	"#[trigger at minute(1)]\nfn cb(elapsed: int) {}\nimport trigger minute from triggers;\nfn main() {}",
 	"fn main() { let x = spawn main(); let y = 1 as float; let z = [1, 2][0]; let o = ?1; }",
 	"pub fn f() -> int { 1 }\npub let v = 2;\npub type T = int;",
+}
+
+// probePrograms: hand-written programs around the analyzer's special cases (names used outside of
+// functions, triggers, templates, singletons, self-imports, kind-mismatched imports, recursive
+// types, type errors of every operator). They are table inputs of their own (TestProbes) and bases
+// for the mutation and edit generators.
+var probePrograms = []string{
+	"#[allow_unused] fn f() {}\nfn main() {}",
+	"import { f } from m;\n#[allow_unused] fn f() {}\nfn main() {}",
+	"#[allow_unused] fn f() {}\nfn f() {}\nfn main() {}",
+	"#[allow_unused] fn println() {}\nfn main() {}",
+	"let f = 1;\n#[allow_unused] fn f() {}\nfn main() {}",
+	"import trigger minute from triggers;\n#[trigger at minute(1)] fn cb(e: int) {}\n#[trigger at minute(1)] fn cb(e: int) {}\nfn main() {}",
+	"import trigger minute from triggers;\n#[trigger at minute(1)] event fn main(e: int) {}",
+	"import trigger minute from triggers;\nlet cb = 1;\n#[trigger at minute(1)] event fn cb(e: int) {}\nfn main(){}",
+	"import trigger minute from m;\n#[trigger at minute(1)] event fn cb(e: int) {}\nfn main() { trigger cb at minute(1); }",
+	"import trigger http from net;\nfn main() {}",
+	"type T = T;\nfn main() { let x: T = 1; }",
+	"type A = [B];\ntype B = ?A;\nfn main() { let x: A = []; }",
+	"fn main() { type T = [T]; let x: T = []; }",
+	"fn main() { let x: any = 1; x = 2; x += 1; }",
+	"import templ FooFeature from templates;\n$S = int;\nimpl FooFeature with { light } for $S { event fn dim(percent: int) -> bool { true } }\nfn main() {}",
+	"import templ FooFeature from templates;\n$S = int;\nimpl FooFeature with { light } for $S { pub fn dim(percent: int) -> bool { true } }\nfn main() {}",
+	"import templ FooFeature from templates;\n$S = int;\nimpl FooFeature for $S { }\nimpl FooFeature for $S { }\nfn main() {}",
+	"import templ FooFeature from templates;\nimpl FooFeature with { light, temperature } for $S { fn dim(p: $S) -> bool { true } }\nfn main() {}",
+	"$S = int;\n$S = str;\nfn f(a: $S, b: $S) {}\nfn main() { f(); }",
+	"$S = { a: int };\nfn main() { $S.a = 1; $S = 2; let x = $S; $nosuch; }",
+	"fn f(a: $S) {}\nfn main() { f(); let g = fn(a: $S) {}; spawn f(); }",
+	"$S = int;\nfn main(a: $S) {}",
+	"$S = int;\nevent fn e(a: $S) {}\nfn main() { trigger e at minute(); }",
+	"fn main() { for i in 1 {} for i in \"s\" {} for i in new {} {} for i in none {} for i in main {} }",
+	"fn main() { match main { 1 => 2 } match [1] { [1] => 2 } match new {} { _ => 1 } match 1.5 { 1 => 1, \"a\" => 2, none => 3, null => 4, true => 5 } }",
+	"fn main() { let x = 1 as fn() -> int; let y = main as int; let z = [1] as [str]; let w = new {a: 1} as {?}; let v = w as {a: str}; let u = none as ?int; }",
+	"fn main() { \"s\".nosuch; [1].push; (1..2).start; 1.to_string(); none.unwrap(); new {a:1}.keys(); main.a; println.a; }",
+	"fn main() { let x = [1]; x[\"a\"]; x[1.5]; x[none]; \"s\"[0]; new {a:1}[\"a\"]; 1[0]; main[0]; (1..2)[0]; }",
+	"fn main() { -\"s\"; !1; ?main; -none; !!null; -[1]; -new{}; ?? 1; }",
+	"fn main() { 1 + \"s\"; [1] + [2]; main + main; none == none; null == null; new {} == new {}; (1..2) == (1..2); println == 1; fmt == fmt; log == log; println == println; print > debug; }",
+	"fn main() { 1 ** none; 1 << 1.5; true && 1; 1 || 2; \"a\" * 3; 1 / 0; 1 % 0; 1.0 / 0; }",
+	"fn main() { let x = if true { 1 } else { \"s\" }; let y = if 1 { 1 }; let z = match 1 { 1 => 1, _ => \"s\" }; let w = try { 1 } catch e { \"s\" }; let v = { }; }",
+	"fn main() -> int { }\nfn f() -> int { return; }\nfn g() { return 1; }\nfn h() -> nosuch { h() }",
+	"fn main() { let f = fn() -> int { return \"s\"; }; let g = fn(a: int, a: int) {}; g(1); g(1, 2, 3); f(1); }",
+	"fn f(a: int, a: int) {}\nfn main() { f(1, 2); }",
+	"fn main() { throw(); throw(1, 2); exit(); exit(\"s\"); assert(); fmt(); fmt(1); log(1); time.sleep(); time.nosuch(); }",
+	"fn main() { let x = new { a: 1, a: 2, \"a\": 3 }; let y: { a: int, a: str } = x; type T = { a: int, a: int }; }",
+	"fn main() { break; continue; return; return 1; loop { fn() { break; }; } }",
+	"let x = { break; 1 };\nlet y = { return 1; };\nlet z = loop {};\nlet w = fn() { return 1; };\nlet v = { continue; };\nfn main() {}",
+	"let a = b;\nlet b = a;\nlet c = c;\nfn main() {}",
+	"let x = main;\nfn main() {}",
+	"pub let x = main();\nfn main() -> int { x }",
+	"let x = spawn main();\nlet y = spawn nosuch();\nfn main() { spawn undefined(); spawn println(1); }",
+	"let x = { trigger main on m(); };\nevent fn e() {}\nlet y = { trigger e at minute(1); };\nfn main() {}",
+	"let x = try { throw(1) } catch e { e };\nlet y = match 1 { _ => main };\nlet z = for i in 0..1 {};\nfn main() {}",
+	"import { main } from main;\nfn main() { main(); }",
+	"import main from main;\nimport main from main;\nfn main() {}",
+	"import { type T } from main;\ntype T = int;\nfn main() {}",
+	"import { templ T, trigger t } from main;\nfn main() { trigger main at t(); }\nimpl T for $S {}",
+	"import x from testing;\nimport { type assert_eq } from testing;\nimport { templ any_func } from testing; import { trigger any_list } from testing;\nfn main() {}",
+	"import type ping from net;\nimport templ http from net;\nimport { trigger HttpResponse } from net;\nfn main() { let x: ping = 1; }\nimpl http for $S {}",
+	"import templ ping from net;\n$S = int;\nimpl ping with { light } for $S { fn dim() {} }\nfn main() {}",
+	"import { host_int, any_val, nosuch } from host;\nimport type host_int from host;\nfn main() { host_int(); any_val(\"s\"); }",
+	"import x from a\\",
+	"import x from a:~",
+	"import x from @\"",
 }
